@@ -1,7 +1,7 @@
 (* C04, top level: the theorems the check states about the quasigo compiler and VM models. *)
 From Coq Require Import List ZArith Bool Lia.
 From RG.Base Require Import Outcome GoInt GoSlice.
-From RG.Quasigo Require Import Source Bytecode Compile VM Sem Guards Link VMLemmas CompileLemmas SemLemmas NativeLemmas ExprCorrect StmtCorrect FunCorrect Assemble.
+From RG.Quasigo Require Import Source Bytecode Compile VM Sem Guards Link VMLemmas CompileLemmas SemLemmas NativeLemmas ExprCorrect StmtCorrect FunCorrect ExprPanic StmtPanic FunPanic Assemble.
 Import ListNotations.
 Local Open Scope Z_scope.
 
@@ -28,25 +28,31 @@ Definition in_scope (cfg : config) (p : program) (cs : list cfunc) : bool :=
 Definition result_matches (r : option value) (c : callres) : Prop := res_rel r c.
 
 (* ---------- compile_correct ----------
-   Full statement (DESIGN section 6): for every function the compiler accepts, every terminating Go run is
-   reproduced by the VM on the compiled bytes. *)
+   Full statement (DESIGN section 6): for every function the compiler accepts, the VM run on the compiled bytes
+   returns what a terminating Go run returns, and fails when the Go run panics. *)
 Definition compile_correct_statement (cfg : config) (guard : program -> list cfunc -> bool) : Prop :=
   forall (nat_fun : Z -> list value -> option (list value)) (p : program) (cs : list cfunc),
     compile_prog cfg p = COk cs -> guard p cs = true ->
-    forall fuel id args r, call_sem (nat_sig cfg) nat_fun p fuel id args = EOk r ->
-    forall cf, nthz cs id = Some cf ->
-    exists fuel' cr, call_fun cfg (map (vfunc_bytes cfg) cs) nat_fun fuel' (vfunc_bytes cfg cf) args = RDone cr /\ result_matches r cr.
+    forall fuel id args cf, nthz cs id = Some cf ->
+    (forall r, call_sem (nat_sig cfg) nat_fun p fuel id args = EOk r ->
+       exists fuel' cr, call_fun cfg (map (vfunc_bytes cfg) cs) nat_fun fuel' (vfunc_bytes cfg cf) args = RDone cr /\ result_matches r cr) /\
+    (forall w, call_sem (nat_sig cfg) nat_fun p fuel id args = EPanic w ->
+       exists fuel', call_fun cfg (map (vfunc_bytes cfg) cs) nat_fun fuel' (vfunc_bytes cfg cf) args = RPanic w).
 
 (* Proved under the guard [in_scope]: junk-safe || / && (Guards.safe), `return true/false` by name denote the
-   constants, plain assignment of a single variable, distinct parameter names, operands that fit their encoding,
-   and the configuration facts (sound unconditional-jump set, labels reset lastOp, calls pop the callee frame). *)
+   constants, returns carry a value exactly in non-void functions, plain assignment of a single variable, distinct
+   parameter names, operands that fit their encoding, and the configuration facts (sound unconditional-jump set,
+   labels reset lastOp, calls pop the callee frame). *)
 Theorem compile_correct_partial cfg :
   compile_correct_statement cfg (fun p cs => in_scope cfg p cs).
 Proof.
-  intros nat_fun p cs Hc Hg fuel id args r Hr cf Hcf.
+  intros nat_fun p cs Hc Hg fuel id args cf Hcf.
   unfold in_scope in Hg. apply andb_prop in Hg as [Hg Henc]. apply andb_prop in Hg as [Hg Hprog]. apply andb_prop in Hg as [Hcfg Hnums].
-  eapply (call_correct cfg nat_fun p cs Hc Hprog Hcfg (vfunc_bytes cfg) _ (link_bytes_ok cfg Hnums)); eauto.
-  intros cf0 Hin. rewrite forallb_forall in Henc. now apply Henc.
+  assert (Hgood : forall cf0, In cf0 cs -> code_encodable cf0 = true).
+  { intros cf0 Hin. rewrite forallb_forall in Henc. now apply Henc. }
+  split.
+  - intros r Hr. eapply (call_correct cfg nat_fun p cs Hc Hprog Hcfg (vfunc_bytes cfg) _ (link_bytes_ok cfg Hnums)); eauto.
+  - intros w Hw. eapply (call_panics cfg nat_fun p cs Hc Hprog Hcfg (vfunc_bytes cfg) _ (link_bytes_ok cfg Hnums)); eauto.
 Qed.
 
 (* the same at the level of instruction lists (no encoding side condition) *)
